@@ -924,6 +924,26 @@ func (w *IngressWorld) FloodStep(s Step) {
 		w.Res.Trouble = "flood: needs a signed request"
 		return
 	}
+	// only where the flood meets a replay cache: on a route that authenticates by HMAC
+	{
+		probe := *s.Req
+		sg := *s.Req.Sign
+		sg.Replay, sg.Mutate = 0, "sig_bit"
+		probe.Sign = &sg
+		nsent := len(w.sent)
+		preq, err := w.buildRequest(&probe)
+		w.sent = w.sent[:nsent]
+		if err != nil {
+			w.Res.logf("flood skipped: %v", err)
+			return
+		}
+		idx, _, _ := refResolve(w.Spec, preq)
+		if idx < 0 || w.Spec.Routes[idx].HMAC == nil {
+			w.Res.logf("flood skipped: the request is not served by an HMAC route")
+			return
+		}
+	}
+	now := w.Clock.Peek()
 	counts := map[int]int{}
 	for i := 0; i < s.Batch; i++ {
 		rs := *s.Req
@@ -944,6 +964,18 @@ func (w *IngressWorld) FloodStep(s Step) {
 		rec := httptest.NewRecorder()
 		w.Ingress.ServeHTTP(rec, req)
 		counts[rec.Code]++
+		if rec.Code != http.StatusTooManyRequests {
+			// it went through the rate limiter (the first thing a routed request meets)
+			if idx, _, _ := refResolve(w.Spec, req); idx >= 0 {
+				lim := w.limiters[w.Spec.Routes[idx].Path]
+				if lim == nil {
+					lim = w.limiters[""]
+				}
+				if lim != nil {
+					lim.admit(now, now)
+				}
+			}
+		}
 		if rec.Code == http.StatusAccepted {
 			w.add("C08.unauth.accepted", "C08", "ingress/flood", "request %d of a flood of requests with invalid signatures was accepted", i)
 			w.adoptUnexpected(w.Clock.Peek())
